@@ -117,3 +117,26 @@ def reindent(text, col):
     """indent every line but the first by `col` spaces (for multi-line replacements placed at column col)"""
     lines = text.split("\n")
     return "\n".join([lines[0]] + [(" " * col + l if l.strip() else l) for l in lines[1:]])
+
+
+def as_augassign(st):
+    """`x = x + e` / `x = e + x` / `x = x - e` / `x = x * e` read as the augmented assignment it is; AugAssign returned unchanged; else None"""
+    import ast
+    if isinstance(st, ast.AugAssign):
+        return st
+    if isinstance(st, ast.Assign) and len(st.targets) == 1 and isinstance(st.value, ast.BinOp) and isinstance(st.value.op, (ast.Add, ast.Sub, ast.Mult)):
+        t = ast.dump(st.targets[0]).replace("Store()", "Load()")
+        l, r = st.value.left, st.value.right
+        other = None
+        if ast.dump(l) == t:
+            other = r
+        elif ast.dump(r) == t and isinstance(st.value.op, (ast.Add, ast.Mult)):
+            other = l
+        if other is not None:
+            a = ast.AugAssign(target=st.targets[0], op=st.value.op, value=other)
+            ast.copy_location(a, st)
+            ast.fix_missing_locations(a)
+            a._orig = st
+            a._parent = getattr(st, "_parent", None)
+            return a
+    return None
